@@ -88,14 +88,34 @@ theorem rtm_has_iff (evs : List MemEv) (k : Nat) :
 
 /-! ### the RT index -/
 
-/-- After any sequence of table updates (each announcement a new path object) the index returns, for
-    an RT key, exactly the stored paths carrying it that are the best path of their destination or
-    were received with a non-zero path-id. -/
+/-- After any sequence of table updates — each announcement a new path object, the very same stored
+    object fed again, or a new clone of the stored announcement it replaces (soft reset in without /
+    with a modifying import policy), see `Fresh` — the index returns, for an RT key, exactly the
+    stored paths carrying it that are the best path of their destination or were received with a
+    non-zero path-id. -/
 theorem idx_consistent (t : Tbl) (h : Reach t) (k : Nat) (q : VPath) :
     q ∈ t.idx.byRT k ↔
       (q ∈ t.dest q.nlri ∧ k ∈ keys q.ecs ∧ (q.pathId ≠ 0 ∨ t.best q.nlri = some q)) := by
   rw [mem_byRT]
   exact (reach_inv t h).2 k q
+
+/-- Feeding the very same stored object again is an admissible update (`Fresh`) … -/
+theorem feed_same_object (t : Tbl) (p : VPath) (h : TblWF t) (hp : p ∈ t.dest p.nlri) : Fresh t p :=
+  ⟨fun n q hq hu => h.uid_uniq n p.nlri q p hq hp hu,
+   fun n q hq hr => by
+     have e := h.root_uniq n p.nlri q p hq hp hr
+     subst e
+     exact ⟨rfl, by simp [sameSlot]⟩⟩
+
+/-- … and so is a new clone (new object, same root) of the stored path `q` it replaces. -/
+theorem feed_clone (t : Tbl) (p q : VPath) (h : TblWF t) (hq : q ∈ t.dest q.nlri)
+    (hn : q.nlri = p.nlri) (hs : sameSlot p q = true) (hroot : q.root = p.root)
+    (hnew : ∀ n x, x ∈ t.dest n → x.uid ≠ p.uid) : Fresh t p :=
+  ⟨fun n x hx hu => absurd hu (hnew n x hx),
+   fun n x hx hr => by
+     have e : x = q := h.root_uniq n q.nlri x q hx hq (hr.trans hroot.symm)
+     subst e
+     exact ⟨hn, hs⟩⟩
 
 /-! ### RT Constraint -/
 
@@ -168,8 +188,8 @@ def X : EC := 842122827661313
 def Xn : EC := 4612528141255049217
 def Y : EC := 842122827661314
 def red : Vrf := { name := 1, rd := 1, label := 16, imports := [X, Xn], exports := [X] }
-def pa : VPath := { uid := 1, src := 1, pathId := 0, rd := 5, pfx := 0, label := 1005, pref := 100, marker := 1, ecs := [X, Y] }
-def pb : VPath := { uid := 2, src := 3, pathId := 1, rd := 5, pfx := 0, label := 1005, pref := 300, marker := 2, ecs := [Y] }
+def pa : VPath := { uid := 1, root := 1, src := 1, pathId := 0, rd := 5, pfx := 0, label := 1005, pref := 100, marker := 1, ecs := [X, Y] }
+def pb : VPath := { uid := 2, root := 2, src := 3, pathId := 1, rd := 5, pfx := 0, label := 1005, pref := 300, marker := 2, ecs := [Y] }
 
 example : canImport red [Y, X] = true := by decide
 example : canImport red [Xn, Y] = false :=
@@ -181,17 +201,47 @@ example : (Rtm.run [] [⟨⟨X, 65000, 0⟩, false⟩, ⟨⟨X, 65001, 0⟩, fal
 
 /-- a reachable table with a best ADD-PATH path and a non-best path without path-id -/
 def t2 : Tbl := (Tbl.empty.update pa false).update pb false
+theorem stored_after_pa (n : Nat × Nat) (q : VPath) (hq : q ∈ (Tbl.empty.update pa false).dest n) : q = pa := by
+  simp only [Tbl.update, Tbl.empty] at hq
+  split at hq
+  · simpa [calcDest, removeSlot, insertSort] using hq
+  · simp at hq
 theorem t2_reach : Reach t2 :=
-  Reach.step _ pb false (Reach.step _ pa false Reach.empty (by intro _ n q hq; simp [Tbl.empty] at hq))
-    (by
-      intro _ n q hq
-      have : q = pa := by
-        simp only [Tbl.update, Tbl.empty] at hq
-        split at hq
-        · simpa [calcDest, removeSlot, insertSort] using hq
-        · simp at hq
-      subst this; decide)
-example : (t2.idx.byRT Y).map (·.uid) = [2] ∧ (t2.idx.byRT X).map (·.uid) = [] := by decide
+  Reach.step _ pb false
+    (Reach.step _ pa false Reach.empty
+      (fun _ => ⟨fun n q hq => by simp [Tbl.empty] at hq, fun n q hq => by simp [Tbl.empty] at hq⟩))
+    (fun _ => ⟨fun n q hq hu => by rw [stored_after_pa n q hq] at hu; exact absurd hu (by decide),
+               fun n q hq hr => by rw [stored_after_pa n q hq] at hr; exact absurd hr (by decide)⟩)
+/-- the same object fed again (soft reset in without a modifying policy) keeps the table reachable
+    and the path indexed; so does a clone with other targets (soft reset in with a modifying policy) -/
+def pb' : VPath := { pb with uid := 3, ecs := [X] }
+theorem t2_refeed : Reach (t2.update pb false) :=
+  Reach.step _ pb false t2_reach (fun _ => feed_same_object t2 pb (reach_inv t2 t2_reach).1 (by decide))
+theorem t2_refeed_clone : Reach ((t2.update pb false).update pb' false) :=
+  Reach.step _ pb' false t2_refeed (fun _ =>
+    feed_clone _ pb' pb (reach_inv _ t2_refeed).1 (by decide) (by decide) (by decide) (by decide)
+      (by
+        intro n q hq
+        have hwf := (reach_inv _ t2_refeed).1
+        have hn := hwf.nlri_ok n q hq
+        subst hn
+        intro hu
+        have h1 : pb ∈ (t2.update pb false).dest pb.nlri := by decide
+        by_cases hq5 : q.nlri = (5, 0)
+        · have hq' : q ∈ (t2.update pb false).dest (5, 0) := hq5 ▸ hq
+          have : q ∈ [pb, pa] := by
+            have e : (t2.update pb false).dest (5, 0) = [pb, pa] := by decide
+            rw [e] at hq'; exact hq'
+          simp at this
+          rcases this with rfl | rfl <;> exact absurd hu (by decide)
+        · have : (t2.update pb false).dest q.nlri = [] := by
+            have e1 : pb.nlri = (5, 0) := by decide
+            have e2 : pa.nlri = (5, 0) := by decide
+            simp only [t2, Tbl.update, Tbl.empty, e1, e2, if_neg hq5]
+          rw [this] at hq; cases hq))
+example : ((t2.update pb false).idx.byRT Y).map (·.uid) = [2] ∧
+    (((t2.update pb false).update pb' false).idx.byRT X).map (·.uid) = [3] ∧
+    (((t2.update pb false).update pb' false).idx.byRT Y).map (·.uid) = [] := by decide
 
 /-- a reachable system in which the peer holds a route, and one in which it lost it -/
 def sys1 : Sys := ((Sys.init.step (.upd pa false)).step (.mem ⟨X, 65000, 0⟩ false))
